@@ -5,7 +5,8 @@ import PGA.Model.GroupName
 
 Mirrors `pgradd/ThermoChem/incomplete.py` 85-105 (presence tests, after the repair of F13: `is not None`), 186-196
 (`copy`), 198-299 (`update`, after the repair that validates the merged data before anything is stored) and
-`pgradd/GroupAdd/Library.py` 233-321 (`_do_load` with its duplicate check and recursive includes, `Update`).
+`pgradd/GroupAdd/Library.py` 233-341 (`_do_load` with its duplicate check and recursive includes; `Update`, after the
+repair of FA1: a first pass that stores nothing and finds out whether the merge is refused, then the storing pass).
 
 `update` is modelled as a *state transformer*: it returns the state of `self` after the call together with the error,
 if any, so that "a rejected merge leaves the correlation unchanged" is a statement with content.  The state of an
@@ -194,7 +195,8 @@ def libInsert (g : Name) (v : Option Obj) : Lib → Lib
   | [] => [(g, v)]
   | (k, w) :: l => if k = g then (g, v) :: l else (k, w) :: libInsert g v l
 
-/-- one group of `GroupLibrary.Update` (305-315) -/
+/-- one group of the storing pass of `GroupLibrary.Update` (the whole loop of the method before it was made
+all-or-nothing): a property set the target does not have is a copy of the source's, one it has is updated in place -/
 def updateGroup (ev : RawEval) (ow : Bool) (self : Lib) (g : Name) (other : Option Obj) : Lib × Option UErr :=
   let mine : Option Obj := match libLookup g self with
     | some ps => ps
@@ -211,14 +213,51 @@ def updateGroup (ev : RawEval) (ow : Bool) (self : Lib) (g : Name) (other : Opti
       let r := update ev m o.c ow
       (libInsert g (some r.1) self, r.2)
 
-/-- `GroupLibrary.Update(lib, overwrite)`: groups of `other` in order; stops at the first exception, keeping what was
-merged before it -/
-def libUpdate (ev : RawEval) (ow : Bool) : Lib → Lib → Lib × Option UErr
+/-- `GroupLibrary.Update(lib, overwrite)` as it was before the repair of FA1 — and the storing pass of the repaired method:
+groups of `other` in order; stops at the first exception, keeping what was merged before it -/
+def libUpdateOld (ev : RawEval) (ow : Bool) : Lib → Lib → Lib × Option UErr
   | self, [] => (self, none)
   | self, (g, ps) :: rest =>
     match updateGroup ev ow self g ps with
-    | (self', none) => libUpdate ev ow self' rest
+    | (self', none) => libUpdateOld ev ow self' rest
     | (self', some e) => (self', some e)
+
+/-- one group of the first pass of `GroupLibrary.Update`: nothing is stored; a property set the target does not have is
+copied (`other_property_sets[name].copy()`), a merge into one it has is tried on a copy of the target's
+(`property_sets[name].copy().update(other_property_sets[name], overwrite)`).  The exception, if any. -/
+def trialGroup (ev : RawEval) (ow : Bool) (self : Lib) (g : Name) (other : Option Obj) : Option UErr :=
+  let mine : Option Obj := match libLookup g self with
+    | some ps => ps
+    | none => none          -- `self.contents.get(group, {})`
+  match other with
+  | none => none
+  | some o =>
+    match mine with
+    | none =>
+      match copy o with
+      | .ok _ => none
+      | .error e => some e
+    | some m =>
+      match copy m with
+      | .error e => some e
+      | .ok m' => (update ev m' o.c ow).2
+
+/-- the first pass over the groups of `other`, in order, every group against the target *as it is* (nothing is stored):
+the first exception -/
+def libTrial (ev : RawEval) (ow : Bool) (self : Lib) : Lib → Option UErr
+  | [] => none
+  | (g, ps) :: rest =>
+    match trialGroup ev ow self g ps with
+    | some e => some e
+    | none => libTrial ev ow self rest
+
+/-- `GroupLibrary.Update(lib, overwrite)` (after the repair of FA1): the first pass decides whether the merge is refused
+— then the target is what it was —; otherwise the second pass stores, group by group as the old loop did (the copies made
+by the first pass are the copies the old loop made: `copy` is a function of the source's data) -/
+def libUpdate (ev : RawEval) (ow : Bool) (self other : Lib) : Lib × Option UErr :=
+  match libTrial ev ow self other with
+  | some e => (self, some e)
+  | none => libUpdateOld ev ow self other
 
 /-! ### loading a tree of files -/
 
